@@ -77,6 +77,26 @@ def run(ctx):
                         ctx.violation('complex-misuse:%s:%s:%s' % (cname, 'x' if xc else '', 'f' if fc else ''),
                                       'nd.%s(f, method=%r)(x) with %s returns numbers (%s) instead of raising ValueError' % (
                                           cname, method, ' and '.join(t for t, b in (('complex x', xc), ('complex-valued f', fc)) if b), str(np.ravel(r)[:2])), desc)
+    # the same misuse at every magnitude: an imaginary part of 1e-15 or 1e-30 (of f or of x) is complex data all the same
+    for cname, method, mag in itertools.product(CLS, ['complex', 'multicomplex'], [1e-6, 1e-13, 1e-15, 1e-18, 1e-30]):
+        scalar_out = cname in ('Gradient', 'Hessdiag', 'Hessian')
+        kw = {'method': method}
+        for which in ('f', 'x'):
+            if which == 'f':
+                f = (lambda x, mag=mag: np.sum(np.exp(x)) * (mag * 1j)) if scalar_out else (lambda x, mag=mag: np.exp(x) * (mag * 1j))
+                x = np.array([0.5, 1.25])
+            else:
+                f = (lambda x: np.sum(x ** 2)) if scalar_out else (lambda x: x ** 2)
+                x = np.array([0.5, 1.25]) + 1j * np.array([mag, 0.0])
+            if cname == 'Derivative':
+                x = x[0]
+            o, r = outcome(lambda: getattr(nd, cname)(f, **kw)(x))
+            ctx.count(1, ('tiny-imag', cname, method, which))
+            if o != 'ValueError':
+                ctx.violation('complex-misuse:%s:%s:tiny' % (cname, which),
+                              'nd.%s(f, method=%r)(x) with %s of magnitude %g %s instead of raising ValueError' % (
+                                  cname, method, 'a purely imaginary f' if which == 'f' else 'an imaginary part of x', mag, 'returns numbers (%s)' % str(np.ravel(r)[:2]) if o == 'Value' else 'raises ' + o),
+                              {'class': cname, 'method': method, 'magnitude': mag, 'complex': which})
     # multicomplex n > 2
     for n in (3, 4, 7):
         o, r = outcome(lambda: nd.Derivative(np.exp, method='multicomplex', n=n)(1.0))
@@ -118,6 +138,27 @@ def run(ctx):
     for m, n in [(3, 3), (3, 5), (1, 1)]:
         expect_ve('fdw:%d:%d' % (m, n), 'fd_weights with n >= len(x)', lambda: fornberg.fd_weights(np.arange(m, dtype=float), 0.0, n), {'m': m, 'n': n})
         expect_ve('fdwa:%d:%d' % (m, n), 'fd_weights_all with n >= len(x)', lambda: fornberg.fd_weights_all(np.arange(m, dtype=float), 0.0, n), {'m': m, 'n': n})
+    for m in range(1, 8):
+        for n in (m, m + 1, m + 3):
+            expect_ve('fdw:%d:%d' % (m, n), 'fd_weights with n >= len(x)', lambda: fornberg.fd_weights(np.linspace(-1.0, 2.0, m), 0.3, n), {'m': m, 'n': n})
+            expect_ve('fdwa:%d:%d' % (m, n), 'fd_weights_all with n >= len(x)', lambda: fornberg.fd_weights_all(list(range(m)), 0.5, n), {'m': m, 'n': n, 'nodes': 'list of ints'})
+            expect_ve('fdd:n:%d:%d' % (m, n), 'fd_derivative with n >= len(x)', lambda: fornberg.fd_derivative(np.ones(m), np.arange(float(m)), n, 1), {'len': m, 'n': n})
+        if m >= 2:
+            expect_ok('fdw', 'fd_weights with n = len(x) - 1', lambda: fornberg.fd_weights(np.linspace(-1.0, 2.0, m), 0.3, m - 1), {'m': m})
+        for dl in (-1, 1, 3):
+            if m + dl >= 1:
+                expect_ve('fdd:len:%d:%+d' % (m, dl), 'fd_derivative with len(fx) != len(x)', lambda: fornberg.fd_derivative(np.ones(m + dl), np.arange(float(m)) if m > 1 else np.arange(2.0), 1, 1),
+                          {'len_x': max(m, 2), 'len_fx': m + dl}) if (m + dl) != max(m, 2) else None
+    for shp_x, shp_v in (((3,), (2,)), ((2,), (3,)), ((2, 2), (3,)), ((4,), (2, 3)), ((1,), (2,))):
+        expect_ve('dirdiff:%r:%r' % (shp_x, shp_v), 'directionaldiff with x0 of shape %r and vec of shape %r' % (shp_x, shp_v),
+                  lambda: nd.directionaldiff(lambda x: np.sum(np.asarray(x) ** 2), np.ones(shp_x), np.ones(shp_v)), {'x0_shape': list(shp_x), 'vec_shape': list(shp_v)})
+    # fewer steps than the rule needs: the other classes and generators
+    for cname, kw in (('Gradient', dict(order=6)), ('Jacobian', dict(order=6)), ('Hessdiag', dict(order=6)), ('Derivative', dict(n=4, order=4, method='forward'))):
+        for gen in (nd.MinStepGenerator(base_step=0.1, num_steps=1, check_num_steps=False), nd.MaxStepGenerator(base_step=0.1, num_steps=1, check_num_steps=False)):
+            fsc = (lambda x: np.sum(np.asarray(x) ** 2)) if cname != 'Jacobian' else (lambda x: np.asarray(x) ** 2)
+            xx = 1.0 if cname == 'Derivative' else np.array([1.0, 2.0])
+            expect_ve('few-steps:%s:%s' % (cname, type(gen).__name__), '%s with a single user step (%s) for a rule that needs more' % (cname, type(gen).__name__),
+                      lambda: getattr(nd, cname)(fsc if cname != 'Derivative' else np.exp, step=gen, **kw)(xx), {'class': cname, 'options': {k_: v_ for k_, v_ in kw.items()}, 'generator': type(gen).__name__})
     expect_ve('fdd:len', 'fd_derivative with len(fx) != len(x)', lambda: fornberg.fd_derivative(np.ones(9), np.arange(10.0), 1, 2), {})
     expect_ve('fdd:n', 'fd_derivative with n >= len(x)', lambda: fornberg.fd_derivative(np.ones(6), np.arange(6.0), 6, 1), {})
     expect_ok('fdd', 'fd_derivative', lambda: fornberg.fd_derivative(np.arange(10.0) ** 2, np.arange(10.0), 1, 2), {})
